@@ -166,13 +166,22 @@ func c09OptionValue(r *Rng, f c09Field, sampleTypes []string, big bool) string {
 	}
 	switch f.kind {
 	case "bool":
+		if r.Chance(60) {
+			return r.Pick([]string{"true", "false", "1", "0", "t", "f"})
+		}
 		return c09Bools[r.Intn(len(c09Bools))]
 	case "int":
+		if r.Chance(40) {
+			return r.Pick([]string{"0", "1", "2", "5", "10", "100", "-1", "-7", "2147483647"})
+		}
 		if r.Chance(50) {
 			return c09Numbers[r.Intn(len(c09Numbers))]
 		}
 		return fmt.Sprint(r.Int64())
 	case "float":
+		if r.Chance(50) {
+			return r.Pick([]string{"0", "1", "0.5", "0.01", "2", "1e3", "-1", "1e-9", "NaN", "Inf"})
+		}
 		return c09Floats[r.Intn(len(c09Floats))]
 	case "choice":
 		if r.Chance(70) {
@@ -220,7 +229,21 @@ func c09ScriptLine(r *Rng, sampleTypes []string, big, ctl bool) string {
 		return s
 	}
 	var line string
-	switch r.Intn(16) {
+	switch r.Intn(17) {
+	case 16: // text report into a file: the legend carries the parsed filters
+		toks := []string{r.Pick([]string{"top", "text", "tree", "top5", "tree20", "tags", "peek main"})}
+		for i, n := 0, r.Intn(4); i < n; i++ {
+			switch r.Intn(5) {
+			case 0:
+				toks = append(toks, "-"+rx())
+			case 1:
+				toks = append(toks, r.Pick([]string{"3", "-cum", "--cum", "0", "-5"}))
+			default:
+				toks = append(toks, rx())
+			}
+		}
+		toks = append(toks, r.Pick([]string{">out", "> out2", ">o.txt"}))
+		line = strings.Join(toks, " ")
 	case 0, 1, 2, 3: // report command with arguments
 		cmd := c09Commands[r.Intn(len(c09Commands))]
 		var toks []string
@@ -311,7 +334,9 @@ func c09Quits(line string) bool {
 
 // c09Profile builds a valid profile with odd content. shortBuildID selects the stream with 1- and
 // 2-character build ids (kept separate: on an unrepaired tree those profiles crash at load).
-func c09Profile(r *Rng, shortBuildID bool) *profile.Profile {
+// extremeLines selects the stream whose line numbers may be anywhere in int64 (kept separate: on a
+// tree without fixes/C09-weblist-line-overflow.patch source listings of such profiles do not end).
+func c09Profile(r *Rng, shortBuildID, extremeLines bool) *profile.Profile {
 	o := &GenOpts{MaxSampleTypes: 4, MaxFuncs: 8, MaxMappings: 3, MaxLocs: 10, MaxLines: 3, MaxSamples: 12, MaxDepth: 6,
 		SparseIDs: r.Chance(50), WeirdStrings: r.Chance(70), Labels: r.Chance(70), ExtremeValues: r.Chance(40),
 		EmptyStacks: r.Chance(30), NoLineLocs: r.Chance(40), Header: r.Chance(70)}
@@ -319,6 +344,21 @@ func c09Profile(r *Rng, shortBuildID bool) *profile.Profile {
 		o.Names = []string{"top", "o", "quit", "a(b", "[", "x\ny", "日本", strings.Repeat("L", 300), "main", "foo", "q", ":"}
 	}
 	p := GenProfile(r, o)
+	if !extremeLines {
+		const lim = int64(1) << 40
+		for _, l := range p.Location {
+			for i := range l.Line {
+				if l.Line[i].Line > lim || l.Line[i].Line < -lim {
+					l.Line[i].Line %= lim
+				}
+			}
+		}
+		for _, f := range p.Function {
+			if f.StartLine > lim || f.StartLine < -lim {
+				f.StartLine %= lim
+			}
+		}
+	}
 	odd := []string{"top", "quit", "o", ":", "inuse_space", "space", "total_x", "=", "a=b", "cum", "focus", "1", "0", "-1", "//:", " ", "samples/count", "\xff", "", "cpu"}
 	for _, st := range p.SampleType {
 		if r.Chance(20) {
